@@ -121,6 +121,22 @@ CHECKS['C17'] = dict(
     technique='TLA+ pipeline state machine, trace validation by TLC of per-pass tree snapshots recorded from the real transpiler',
     design_ref='DESIGN.md sections 3.4, 5 (C17)', engine='tlc-pipeline')
 
+CHECKS['C02'] = dict(
+    text='spec/MiniPy.tla in its pure profile (ints, + - *, comparisons, and/or/not tests, counted while loops, for over '
+         'range, break/continue/return, closures with nonlocal) is the oracle: TLC enumerates every generated program on every '
+         'input tuple over IntDom^2 (all branch/iteration patterns within the bounds) and predicts the return value. The '
+         'function converted by the real malt is run with a tracing-style backend (vf/tracing.py: both branches from the same '
+         'state keeping the first nouts entries of the selected one; loop test+body once out of band; carried state '
+         're-injected before every iteration) installed on the ag__ module of a fresh transpiler, and must return the same '
+         'value. The class predicate "definitely assigned before every read" is decided by the specification (no execution '
+         'of the program raises within the bounds).',
+    note='The backend is an instance of the backend family the property describes, not a proof for all backends. Attribute and '
+         'constant-key state (self.attr, d[const]) and the in-TLC StateTuples invariant on the pre-control_flow tree (the '
+         '"equivalently" clause) are not generated yet. Speculative loop runs are capped (40 iterations) and such runs are '
+         'not judged. Bounds: loop trips <=3/4, inputs 0..2/0..3.',
+    technique='TLA+ operational semantics as oracle over all inputs; converted function executed under a functional operator backend',
+    design_ref='DESIGN.md section 5 (C02)', engine='tlc-minipy')
+
 NOT_CLAIMED = {}
 
 
